@@ -123,7 +123,9 @@ def run(pid, tier, seed):
             ncf = CONF_RW[0] if q else CONF_RW[1]
             if gen_core.PROFILES[prof].get("conns") or gen_core.PROFILES[prof].get("real_timeout_ms") or gen_core.PROFILES[prof].get("password"):
                 ncf = 0      # (not what the design model describes: several connections per node, real time)
-            plain = [s for s in scs if not any(st["op"] in ("answerhead", "answerrest", "raw") or st.get("cls", "").startswith("=") for st in _stims(s))]   # (not in the design model)
+            plain = [s for s in scs if not any(st["op"] in ("answerhead", "answerrest", "raw") or st.get("cls", "").startswith("=")
+                                               or any(sl.startswith("#") for r in st.get("reqs", []) for sl in r.get("slots", []))
+                                               for st in _stims(s))]   # (not in the design model: split replies, literal error lines, numbered slots)
             rest = [s for s in scs if s not in plain[:ncf]]
             conf_consts = {"TimeoutOn": "TRUE" if gen_core.PROFILES[prof].get("timeout") else "FALSE"}
             groups.append((gen_core.cfg_for(prof), plain[:ncf], "rwc-" + prof, conf_consts))
